@@ -611,7 +611,7 @@ func (l *ledGen) drain() {
 
 func genLed(g *Gen) {
 	nHist := g.Scale(120, 4000)
-	for h := 0; h < nHist; h++ {
+	for h := 0; h < nHist || (!g.Covered() && h < 6*nHist); h++ {
 		l := newLedGen(g, "led")
 		l.start(1 + g.Rng.Intn(3))
 		steps := 12 + g.Rng.Intn(g.Scale(30, 70))
